@@ -37,6 +37,30 @@ Qed.
 Definition pps (oa fpv outv keyv : value) (pe : list (string * value)) : list (string * value) :=
   [("optarg", oa); ("#0", fpv); ("#0@8", outv); ("#0@16", keyv)] ++ pe.
 
+(* closeFiles(res): fclose is dropped by the translator, the state is unchanged *)
+Lemma closeFiles_ok : forall m fs oa fpv outv keyv pe fr,
+  pv fpv -> pv outv ->
+  exec cli_prog [] 10 (f_body Src_cli.f_closeFiles_1) (mk m [("res", VPtr "#0" 0)] fs (pps oa fpv outv keyv pe) fr) =
+  Ok (Normal, mk m [("res", VPtr "#0" 0)] fs (pps oa fpv outv keyv pe) fr).
+Proof.
+  intros m fs oa fpv outv keyv pe fr Hf Ho. cbn [f_body Src_cli.f_closeFiles_1]. unfold mk, pps.
+  destruct fpv as [z|nf of|]; [contradiction| |]; (destruct outv as [z|no oo|]; [contradiction| |]); xrun fail.
+Qed.
+Lemma closeFiles_call : forall fuel m l fs oa fpv outv keyv pe fr,
+  lget l "res" = Some (VPtr "#0" 0) -> (11 <= fuel)%nat -> pv fpv -> pv outv ->
+  exec cli_prog [] fuel (SCall None "closeFiles/1" None [EVar "res"]) (mk m l fs (pps oa fpv outv keyv pe) fr) =
+  Ok (Normal, mk m l fs (pps oa fpv outv keyv pe) fr).
+Proof.
+  intros fuel m l fs oa fpv outv keyv pe fr Hl Hf Hpf Hpo.
+  destruct fuel as [|fuel]; [lia|].
+  eapply x_call.
+  - cbn [eval_list eval loc mk]. rewrite Hl. reflexivity.
+  - reflexivity.
+  - reflexivity.
+  - eapply exec_mono; [apply closeFiles_ok; assumption|lia].
+  - reflexivity.
+Qed.
+
 Ltac neq := first [ discriminate | (let HH := fresh in intro HH; discriminate HH) | assumption | (apply not_eq_sym; assumption)
                   | apply argname_not_heap | (apply not_eq_sym; apply argname_not_heap)
                   | (apply heap_ne0; lia) | (apply not_eq_sym; apply heap_ne0; lia) | (apply heap_ne; lia) ].
@@ -64,16 +88,16 @@ Qed.
 
 (* -o *)
 Lemma po_o : forall m D gp F fp oa fpv outv keyv pe fr fdone (b : bool) ftodo,
-  F = fdone ++ b2z b :: ftodo -> fp = List.length fdone ->
+  F = fdone ++ b2z b :: ftodo -> fp = List.length fdone -> pv outv ->
   exists l', exec cli_prog [] 40 po_body (mk m (po_loc 111) (gfiles D gp F fp) (pps oa fpv outv keyv pe) fr) =
   if b then Ok (Returned (Some (VInt 1)), mk m l' (gfiles D gp F (S fp)) (pps oa fpv (VPtr (streamname fp) 0) keyv pe) fr)
   else Ok (Returned (Some (VInt 0)), mk m l' (gfiles D gp F (S fp)) (pps oa fpv VNull keyv pe) fr).
 Proof.
-  intros m D gp F fp oa fpv outv keyv pe fr fdone b ftodo HF Hfp.
+  intros m D gp F fp oa fpv outv keyv pe fr fdone b ftodo HF Hfp Hpo.
   unfold po_body. cbn [f_body Src_cli.f_parseOpts_2]. unfold mk, po_loc, pps.
   destruct b; cbn [b2z] in HF; eexists.
-  - xrun fail. { xprim prim_fopen_ok. } all: xrun fail. all: xrun fail.
-  - xrun fail. { xprim prim_fopen_null. } all: xrun fail. all: xrun fail.
+  - xrun fail. { xprim prim_fopen_ok. } all: xrun fail. all: xrun fail. all: xrun fail.
+  - xrun fail. { xprim prim_fopen_null. } all: xrun fail. all: xrun fail. all: xrun fail.
 Qed.
 
 Lemma store_tbool : forall x v, store_obj {| o_ty := TBool; o_cells := [x] |} TBool 0 v = Ok {| o_ty := TBool; o_cells := [wrap TBool v] |}.
@@ -87,7 +111,7 @@ Lemma po_i : forall m D gp F fp a fpv outv keyv pe fr fdone (b : bool) ftodo md 
   mget m "fout" = Some {| o_ty := U8; o_cells := fc |} -> List.length fc = 128%nat ->
   mget m "fout_too_long" = Some {| o_ty := TBool; o_cells := [x] |} ->
   a <> "fout" -> a <> "fout_too_long" -> a <> "#0" ->
-  Z.of_nat (List.length text) < 2 ^ 30 ->
+  Z.of_nat (List.length text) < 2 ^ 30 -> pv fpv ->
   exists l' fc', List.length fc' = 128%nat /\
   let m1 := mset (mset m "fout" {| o_ty := U8; o_cells := fc' |}) "fout_too_long"
                  {| o_ty := TBool; o_cells := [if 128 <=? Z.of_nat (List.length text) + 5 then 1 else 0] |} in
@@ -95,7 +119,7 @@ Lemma po_i : forall m D gp F fp a fpv outv keyv pe fr fdone (b : bool) ftodo md 
   if b then Ok (Returned (Some (VInt 1)), mk (mset m1 "#0" (res_obj md ct ht ne)) l' (gfiles D gp F (S fp)) (pps (VPtr a 0) (VPtr (streamname fp) 0) outv keyv pe) fr)
   else Ok (Returned (Some (VInt 0)), mk m1 l' (gfiles D gp F (S fp)) (pps (VPtr a 0) VNull outv keyv pe) fr).
 Proof.
-  intros m D gp F fp a fpv outv keyv pe fr fdone b ftodo md ct ht ne text fc x HF Hfp Hres Ha Hnz Hfo Hfl Hftl N1 N2 N3 Hlen.
+  intros m D gp F fp a fpv outv keyv pe fr fdone b ftodo md ct ht ne text fc x HF Hfp Hres Ha Hnz Hfo Hfl Hftl N1 N2 N3 Hlen Hpf.
   unfold po_body. cbn [f_body Src_cli.f_parseOpts_2]. unfold mk, po_loc, pps.
   assert (Hsn : forall l ps0 fp0, exists fc', List.length fc' = 128%nat /\
      do_prim {| mem := m; loc := l; pre := ""; files := gfiles D gp F fp0; ptrs := ps0; fresh := fr |} "snprintf" [VPtr "fout" 0; VInt 128; VPtr a 0] =
